@@ -450,7 +450,7 @@ func genSynth(prog *Program, p *Pkg) (string, error) {
 	bs := body.String()
 	for _, path := range ips {
 		a := g.imports[path]
-		if !strings.Contains(bs, a+".") {
+		if !strings.Contains(bs, a+".") && !strings.Contains(bs, a+" .") {
 			continue
 		}
 		fmt.Fprintf(&out, "import %s %q\n", a, path)
